@@ -208,8 +208,12 @@ pub fn main(o: &Opts) -> Result<i32, String> {
             if let Some(d) = &dh_filter {
                 cands.retain(|n| n["dh"].as_str() == Some(d.as_str()));
             }
-            if backends_mode != "default" {
-                cands.retain(|n| primset_of(n).map(|p| ring_supports(&p)).unwrap_or(false));
+            if backends_mode == "mix" || backends_mode == "mix-sample" {
+                // mostly names whose primitives ring really provides; every 8th scenario any name at all (a fallback
+                // resolver must behave like the default one for what ring lacks)
+                if si % 8 != 7 {
+                    cands.retain(|n| primset_of(n).map(|p| ring_supports(&p)).unwrap_or(false));
+                }
             }
             if cands.is_empty() {
                 no_names += 1;
